@@ -190,24 +190,24 @@ Proof.
 Qed.
 
 (** number below startNumber -> 404, for video, for audio, and (with the repair) for generated subtitles *)
-Theorem below_start_is_404_plain r loopMS c segPart segID now :
+Theorem below_start_is_404_plain fx r loopMS c segPart segID now :
   rep_type c segPart = 0 -> u32 segID < u32 (start_nr c) ->
-  lookup_plain r loopMS c segPart segID now = Ret e404.
+  lookup_plain fx r loopMS c segPart segID now = Ret e404.
 Proof.
   intros T L. unfold lookup_plain. rewrite T. cbn.
-  destruct (u32 segID <? u32 (start_nr c)) eqn:E; [reflexivity|lia].
+  destruct (u32 segID <? u32 (start_nr c)) eqn:E; [rewrite orb_true_r; reflexivity|lia].
 Qed.
 
-Theorem below_start_is_404_audio a r c segPart segID now :
+Theorem below_start_is_404_audio fx a r c segPart segID now :
   rep_type c segPart = 0 -> u32 segID < u32 (start_nr c) ->
-  find_ref_seg_meta a r c segPart segID now = Ret e404.
+  find_ref_seg_meta fx a r c segPart segID now = Ret e404.
 Proof.
   intros T L. unfold find_ref_seg_meta. rewrite T. cbn.
-  destruct (u32 segID <? u32 (start_nr c)) eqn:E; [reflexivity|lia].
+  destruct (u32 segID <? u32 (start_nr c)) eqn:E; [rewrite orb_true_r; reflexivity|lia].
 Qed.
 
-Theorem unknown_rep_is_404 a c segPart now :
-  find_rep (a_reps a) segPart = RMnone -> create_out_seg a c segPart now = Ret e404.
+Theorem unknown_rep_is_404 fx a c segPart now :
+  find_rep (a_reps a) segPart = RMnone -> create_out_seg fx a c segPart now = Ret e404.
 Proof. intro H. unfold create_out_seg. rewrite H. reflexivity. Qed.
 
 (** * Index safety of the number lookup *)
@@ -314,9 +314,9 @@ Qed.
 
 (** splitPeriod: with 1 <= pph <= 3600 and a window that does not start before the epoch there
     is no division by zero, no negative capacity and at least one period. *)
-Lemma split_period_safe a c pph startMS nowMS :
+Lemma split_period_safe fx a c pph startMS nowMS :
   1 <= pph <= 3600 -> a_segDurMS a <> 0 -> 0 <= startMS <= nowMS ->
-  is_bad (split_period a c pph startMS nowMS) = false.
+  is_bad (split_period fx a c pph startMS nowMS) = false.
 Proof.
   intros P S W. unfold split_period.
   destruct (pph =? 0) eqn:E0; [lia|].
